@@ -93,7 +93,7 @@ def theorem_names(pid):
     # strip comments
     nc = re.sub(r"/-.*?-/", "", src, flags=re.S)
     nc = re.sub(r"--.*", "", nc)
-    return re.findall(r"^theorem\s+([A-Za-z0-9_'.]+)", nc, flags=re.M), src
+    return re.findall(r"^theorem\s+([^\s:({\[]+)", nc, flags=re.M), src
 
 
 def lean_sources_for_grep():
